@@ -269,3 +269,115 @@ def run(ctx):
     # independence across nodes: seeds are a function of (entropy, tree position) with distinct keys per node
     from . import c06
     ctx.guard(c06.r06_1)
+
+
+# ------------------------------------------------------------------------------------------------ R04.6
+def r04_6(ctx):
+    """Conditional mean of the aggregated Levy area.
+
+    Pieces i = 0..n-1 of lengths l_i carry independent (W_i, H_i) with Var W_i = l_i, Var H_i = l_i/12 per component and
+    Davie/Foster areas A_i = H_i (x) W_i - W_i (x) H_i + (mean-zero residual uncorrelated with everything).  The value
+    BrownianInterval.__call__ returns is a bilinear form M_ij = sum B(x, y) x_i y_j in these variables; the combined
+    (W, H) are linear forms (Chen).  For i != j:  E[M_ij K_ij] = sum B(x,y) [Cov(x,H) Cov(y,W) - Cov(x,W) Cov(y,H)]  with
+    K = H (x) W - W (x) H, and Var K_ij = 2 Var(H) Var(W).  The prescribed conditional mean H (x) W - W (x) H means the
+    regression slope E[M K] / Var K is identically 1 in the piece lengths."""
+    rep, model = ctx.rep, ctx.model
+    rep.rule("R04.6", "aggregated Levy area: regression slope of A_ij on (H_i W_j - W_i H_j) of the whole query is "
+                      "identically 1 in the piece lengths (Gaussian bookkeeping on the aggregation's bilinear form)")
+    for n in (2, 3):
+        r = bk.eval_call(model, n, True, True)
+        fi = r["fi"]
+        rep.analysed(fi)
+        out = r["out"]
+        A = out[2]
+        cuts = r["cuts"]
+        lens = [cuts[i + 1] - cuts[i] for i in range(n)]
+        h = cuts[-1] - cuts[0]
+        base = {}
+        for i in range(n):
+            base[("t", f"W{i}")] = lens[i]
+            base[("t", f"H{i}")] = lens[i] / 12
+        # substitute the pieces' own areas by their conditional means
+        table = {}
+        for i in range(n):
+            Wi, Hi = nf.sym(f"W{i}"), nf.sym(f"H{i}")
+            table[("t", f"A{i}")] = nf.wrap_axis(Hi, "col") * nf.wrap_axis(Wi, "row") - \
+                nf.wrap_axis(Wi, "col") * nf.wrap_axis(Hi, "row")
+        M = nf.reduce_sqrt(nf.substitute(A, table))
+        ref = bk.chen_reference(cuts, n, True, True)
+        Wc, Hc = ref["W"], ref["H"]
+
+        def cov(x_atom, lin):
+            return nf.coefficient_of(lin, x_atom) * base[x_atom]
+        EMK = Rat.const(0)
+        ok_form = M.is_poly() or all(nf.is_scalar_atom(a) for a in M.den.atoms())
+        for mono, c in M.num.terms.items():
+            cols = [a for a, e in mono if a[0] == "col"]
+            rows = [a for a, e in mono if a[0] == "row"]
+            if len(cols) != 1 or len(rows) != 1 or any(e != 1 for a, e in mono if a[0] in ("col", "row")):
+                ok_form = False
+                continue
+            x, y = cols[0][1], rows[0][1]
+            if x not in base or y not in base:
+                ok_form = False
+                continue
+            coef = Rat(nf.Poly({tuple((a, e) for a, e in mono if a[0] not in ("col", "row")): c})) / Rat(M.den)
+            EMK = EMK + coef * (cov(x, Hc) * cov(y, Wc) - cov(x, Wc) * cov(y, Hc))
+        varK = 2 * (h / 12) * h
+        construct = f"{fi.key}::R04.6::{n}-pieces"
+        if not ok_form:
+            rep.fail("R04.6", astq.loc(fi), construct,
+                     f"the aggregated Levy area over {n} pieces is not a bilinear form in the pieces' (W, H): `{str(M)[:200]}`")
+            continue
+        slope = EMK / varK
+        rep.check(nf.equal(slope, Rat.const(1)), "R04.6", astq.loc(fi), construct,
+                  f"over {n} stored pieces the returned Levy area regresses on H(x)W - W(x)H of the whole interval with "
+                  f"slope `{nf.reduce_sqrt(slope)}` instead of 1: its conditional mean given (W, H) is not the prescribed "
+                  f"H(x)W - W(x)H", "slope identically 1")
+    ctx.floor("R04.6", 2)
+
+
+_run_c04 = run
+
+
+def run(ctx):
+    _run_c04(ctx)
+    ctx.guard(r04_6)
+
+
+# ------------------------------------------------------------------------------------------------ R04.7
+def r04_7(ctx):
+    rep, model = ctx.rep, ctx.model
+    rep.rule("R04.7", "aggregated (W, H) over 2 and 3 independent pieces: Var W = h, Var H = h/12, Cov(W, H) = 0, and the "
+                      "covariance with each piece's own (W_i, H_i) is the Brownian one")
+    for n in (2, 3):
+        r = bk.eval_call(model, n, True, False, return_U=True, return_A=False)
+        fi = r["fi"]
+        W, U = r["out"]
+        cuts = r["cuts"]
+        lens = [cuts[i + 1] - cuts[i] for i in range(n)]
+        h = cuts[-1] - cuts[0]
+        H = U / h - W * Fraction(1, 2)
+        var = {}
+        for i in range(n):
+            var[("t", f"W{i}")] = lens[i]
+            var[("t", f"H{i}")] = lens[i] / 12
+        checks = [("Var W", _cov(W, W, var), h), ("Var H", _cov(H, H, var), h / 12), ("Cov(W,H)", _cov(W, H, var), Rat.const(0))]
+        # cross-covariance with the first piece: Cov(W, W_0) = l_0 ; Cov(H(s,t), W_0) from Chen: (t - u1) l_0 / (2 h) ...
+        W0 = nf.sym("W0")
+        checks.append(("Cov(W, W_0)", _cov(W, W0, var), lens[0]))
+        rest = h - lens[0]
+        checks.append(("Cov(H, W_0)", _cov(H, W0, var), rest * lens[0] / (2 * h)))
+        for name, got, want in checks:
+            rep.check(nf.equal(got, want), "R04.7", astq.loc(fi), f"{fi.key}::R04.7::{n}-pieces::{name}",
+                      f"over {n} pieces {name} = `{nf.reduce_sqrt(got)}` but Brownian motion requires `{want}`",
+                      f"{name} == {want}")
+    ctx.floor("R04.7", 10)
+
+
+_run_c04b = run
+
+
+def run(ctx):
+    _run_c04b(ctx)
+    ctx.guard(r04_7)
